@@ -718,7 +718,8 @@ static void c17_input_cfg(int nb, int si)
   o.nonblocking = nb;
   o.input.data = data;
   o.input.size = (size_t) size;
-  vk_script("RE X0");
+  o.redirect.err.type = REPROC_REDIRECT_PIPE;
+  vk_script("RE W1:3 W2:2 X0");
   reproc_t *p = hx_new();
   c17_in_api = 1;
   int r = hx_start(p, hx_helper_argv(), o);
@@ -740,6 +741,21 @@ static void c17_input_cfg(int nb, int si)
     return;
   }
   struct vk_child *c = &vk_children[0];
+  /* start-up input says nothing about the mode of the output streams: without the option a read waits for the child, with it it never does */
+  for (int sidx = 1; sidx <= 2; sidx++) {
+    uint8_t b[8];
+    nb17 = nb;
+    c17_in_api = 1;
+    int rr = hx_read(p, sidx == 1 ? REPROC_STREAM_OUT : REPROC_STREAM_ERR, b, 4);
+    c17_in_api = 0;
+    int w2, bt2;
+    int nbl = blocked_intervals(hx_last_api, &w2, &bt2);
+    if (!nb) {
+      if (rr == REPROC_EWOULDBLOCK) vk_violation("C17", "blocking-read-wouldblock", key17, "a read on %s in blocking mode returned the would-block error after a start with input", sidx == 1 ? "stdout" : "stderr");
+      else if (rr > 0 && nbl && w2) vk_hit(CL17_B_READ_WAITED);
+    } else if (nbl) vk_violation("C17", "nonblocking-blocks", key17, "a nonblocking read blocked after a start with input");
+  }
+  nb17 = 1;
   int st = hx_wait(p, REPROC_INFINITE);
   if (st != 0 || !c->in_eof || c->in_n != (size_t) size || memcmp(c->in_data ? c->in_data : (uint8_t *) "", data, (size_t) size))
     vk_violation("C17", "input-delivered-completely", key17, "start accepted %d bytes of input but the child read %zu (eof=%d, status %s)", size, c->in_n, c->in_eof, hx_errname(st));
